@@ -23,7 +23,7 @@ RULE = ("cases: (a) ill-defined models by construction: self reference, cycles o
         "by identity, by equal copy and by equal definition through another class (Any(a,b) next to Xor(a,b)). non-trivial: every "
         "case is; distinct by (class, canonical shape digest)"
         ' Classes added after the seeded rounds: sub-proposition next to a leaf with the same id, generated-id collisions, cross-branch cycles, same id and same child ids with differences one level further down.')
-BUDGET = {"quick": (12, 500, 90), "thorough": (16, 4000, 1200)}
+BUDGET = {"quick": (12, 1500, 90), "thorough": (16, 4000, 1200)}
 ILL = ["self-ref", "cycle", "cycle-cross-branch", "deep-ambivalence", "compound-sign-symmetric", "dup-child-by-negation", "dup-child", "dup-child-ref-leaf", "generated-id-collision", "compound-value-twin", "leaf-bounds", "leaf-bounds-twin", "compound-sign", "compound-value",
        "compound-children", "compound-children-twin", "leaf-vs-compound", "compound-bounds", "compound-compound-child"]
 PYTEST = True     # thorough tier also runs the repository's own tests under these monitors
